@@ -130,13 +130,46 @@ fn c17(case: &Value) -> Value {
         set.push(d.as_str().unwrap());
     }
     let display: Vec<String> = set.debug_opts().collect();
-    let resolve = Resolve::default();
+    // a resolve with one versioned package, so that an interface key exists for which
+    // name_world_key ("a:b/i@1.2.3") and name_canonicalized_world_key ("a:b/i@1") differ
+    let mut resolve = Resolve::default();
+    let pkg = resolve
+        .push_str("t.wit", "package a:b@1.2.3;\ninterface i { f: func(); }\n")
+        .expect("wit");
+    let iface_id = resolve.packages[pkg].interfaces["i"];
+    let tid = resolve.types.alloc(wit_parser::TypeDef {
+        name: None,
+        kind: wit_parser::TypeDefKind::Type(wit_parser::Type::U8),
+        owner: wit_parser::TypeOwner::None,
+        docs: Default::default(),
+        stability: Default::default(),
+        span: Default::default(),
+        external_id: None,
+    });
+    let versioned = WorldKey::Interface(iface_id);
+    let names = json!({"name_world_key": resolve.name_world_key(&versioned),
+        "name_canonicalized_world_key": resolve.name_canonicalized_world_key(&versioned)});
     let mut results = vec![];
     for c in case["calls"].as_array().unwrap() {
-        let wit_async = c["wit_async"].as_bool().unwrap();
+        let kind = match c["kind"].as_str() {
+            Some("Freestanding") => FunctionKind::Freestanding,
+            Some("AsyncFreestanding") => FunctionKind::AsyncFreestanding,
+            Some("Method") => FunctionKind::Method(tid),
+            Some("AsyncMethod") => FunctionKind::AsyncMethod(tid),
+            Some("Static") => FunctionKind::Static(tid),
+            Some("AsyncStatic") => FunctionKind::AsyncStatic(tid),
+            Some("Constructor") => FunctionKind::Constructor(tid),
+            _ => {
+                if c["wit_async"].as_bool().unwrap_or(false) {
+                    FunctionKind::AsyncFreestanding
+                } else {
+                    FunctionKind::Freestanding
+                }
+            }
+        };
         let func = Function {
             name: s(&c["func"]),
-            kind: if wit_async { FunctionKind::AsyncFreestanding } else { FunctionKind::Freestanding },
+            kind,
             params: vec![],
             result: None,
             docs: Default::default(),
@@ -144,13 +177,17 @@ fn c17(case: &Value) -> Value {
             span: Default::default(),
             external_id: None,
         };
-        let key = c["iface"].as_str().map(|i| WorldKey::Name(i.to_string()));
+        let key = if c["iface_versioned"].as_bool().unwrap_or(false) {
+            Some(versioned.clone())
+        } else {
+            c["iface"].as_str().map(|i| WorldKey::Name(i.to_string()))
+        };
         let r = set.is_async(&resolve, key.as_ref(), &func, c["import"].as_bool().unwrap());
         results.push(r);
     }
     let ens = set.ensure_all_used();
     json!({"results": results, "ensure_err": ens.is_err(),
-        "ensure_msg": ens.err().map(|e| e.to_string()), "display": display})
+        "ensure_msg": ens.err().map(|e| e.to_string()), "display": display, "names": names})
 }
 
 fn run(case: &Value) -> Value {
